@@ -37,6 +37,17 @@ NOTES = {
     "C17-m3": "first missed: equal keys in two spellings (0 / -0) added (`AltTab`, law `LawAltTab`)",
     "C17-m4": "first missed: the empty array as a key added",
     "C19-m4": "first missed (negative fraction under %x was undecided): the result must now be that of the truncated or of the floored argument",
+    "C01-m5": "C01 as built; C20 first missed it: base64 input whose BYTE length (not character count) is a multiple of four added to the Codec universe",
+    "C01-m6": "same mechanism as C03-m4; C01 first missed it (C03 / C10 caught it): the deep-live-heap part is now shared with C01",
+    "C02-m5": "first missed: four-parameter functions with every mix of positional and named arguments added to the `func` slice",
+    "C02-m6": "first missed: `$` in nested literals extended by objects defined outside the object added to the `obj` slice",
+    "C03-m5": "first missed: temporaries held only on the evaluator's stacks while other work runs (`temporaries()`)",
+    "C04-m6": "caught by C06 only (the overflow check of a literal belongs to C06; Sem's numbers are small integers)",
+    "C05-m5": "number-like YAML keys with two signs were added on reading the change, before the first try",
+    "C10-m6": "families with `tailstrict` calls in non-tail positions were added on reading the change, before the first try",
+    "C11-m6": "first missed: a collection while only the request's value is held (`hold_gc`) and a call returning a fresh self-referential object",
+    "C12-m6": "first missed: the same name as an external variable and as a top-level argument (kinds `tla_ext_same*`)",
+    "C13-m5": "first missed: the command-line route of code files added to Imports.tla (family `codefile`)",
     "C20-m2": "first missed: digit strings with leading zeros longer than the accumulator width added",
 }
 
